@@ -242,8 +242,11 @@ func (in *Interp) stdIntrinsic(fn *ssa.Function, name string, args []Value) (Val
 			return in.callFunc(&FuncV{fn: f}, args), true
 		}
 	}
-	if strings.HasSuffix(name, ".init") {
+	if strings.HasSuffix(name, ".init") && fn != in.runningInit {
 		return nil, true
+	}
+	if fn == in.runningInit {
+		return nil, false
 	}
 	return in.stdIntrinsic2(fn, name, args)
 }
